@@ -395,6 +395,46 @@ def run(ctx, with_contradiction=True):
                 rep.violation('R-C15-2', 'R-C15-2/%s/%s' % (b.path, nm), 'reducing scalar parser %s on the decode path' % callee_name(t), ctx.where(b, bb))
     rep.floor('R-C15-2', 'from_canonical_bytes call sites on the decode path', ncanon, 1)
 
+    # ---- R-C15-3 the acceptance set is exact: on the decode path, the only rejection that looks at the *content* of the bytes is
+    # from_canonical_bytes (and the degree tag, whose domain has its own rule); every other test is about lengths and presence
+    def _content(sv):
+        # what is left of an operand once every len(..) is taken out: a mention of input data there is a test of content
+        out, depth, i = '', 0, 0
+        while i < len(sv):
+            if sv.startswith('len(', i) and depth == 0:
+                d, j = 1, i + 4
+                while j < len(sv) and d:
+                    d += sv[j] == '('
+                    d -= sv[j] == ')'
+                    j += 1
+                i = j
+                continue
+            out += sv[i]
+            i += 1
+        return out
+    extra_rej = []
+    for b in reach:
+        if b.impl_trait and 'TryFrom' in b.impl_trait:
+            continue            # ExtensionDegree::try_from: R-C15-3/degree-domain
+        if b.key != dec.key and not b.is_closure and not b.path.startswith(dec.path.rsplit('::', 1)[0]):
+            continue            # library-side helpers of other types are not part of the decoder
+        try:
+            rws = guard_table(ctx, b)
+        except Exception:
+            continue
+        for r_ in rws:
+            if r_['eff'] == 'bypass' or r_['parent'] is not None:
+                continue
+            for a_ in r_['atoms']:
+                if a_[0] in ('cmp', 'in', 'unknown', 'pred'):
+                    ops = [x for x in a_[1:] if isinstance(x, str)] + [y for x in a_[1:] if isinstance(x, tuple) for y in x if isinstance(y, str)]
+                    data = [o for o in ops if any(m in _content(o) for m in ('each(', 'p1', 'p2', 'p3', 'upvar', '['))]
+                    if data and a_[0] != 'pred' or (a_[0] == 'pred' and data and a_[1] not in ('is_empty',)):
+                        extra_rej.append((b, r_, a_))
+    rep.check(not extra_rej, 'R-C15-3', 'R-C15-3/no-other-content-test', 'no rejection on the decode path looks at the content of the bytes other than the canonical-scalar parser and the degree tag',
+              'the decoder also rejects on %s: a canonical encoding may be refused' % ([a_ for _, _, a_ in extra_rej][:3],),
+              ctx.where(extra_rej[0][0], extra_rej[0][1]['guard'].bb) if extra_rej else ctx.where(dec))
+
     # ---- R-C15-3 decoder guards
     rows = guard_table(ctx, dec, deep=True, expand=True)
     # (code after a `while remaining.len() >= n {..}` loop runs under that loop's exit condition: a condition on the remaining length
@@ -409,8 +449,17 @@ def run(ctx, with_contradiction=True):
     ne = find(lambda a: a[0] == 'cmp' and a[1] == 'Le' and a[2] == '1' and a[3].startswith('len('))
     rep.check(len(ne) >= 2, 'R-C15-3', 'R-C15-3/non-empty-LR', 'empty L / R vectors are rejected (%d guards)' % len(ne), 'only %d non-emptiness guards on L / R' % len(ne), ctx.where(dec))
     # the leftover buffer is empty: `len() == 0`, `is_empty()`, or `next().is_none()` on it
-    lo = find(lambda a: (a[0] == 'cmp' and 'into_buffer' in ''.join(a[2:4])) or (a[0] == 'fail' and a[1].startswith('each(into_buffer(')))
-    rm = find(lambda a: a[0] == 'cmp' and 'remainder' in ''.join(a[2:4]))
+    lo = find(lambda a: (a[0] == 'cmp' and 'into_buffer' in ''.join(a[2:4]) and (a[1] in ('Eq', 'Le') and '0' in (a[2], a[3]))) or (a[0] == 'fail' and a[1].startswith('each(into_buffer(')))
+    # (the remainder is *empty*: len(remainder) == 0, in either order of the operands, or remainder.next() is None -- not any test that mentions it)
+    def _empty_test(a, what):
+        if a[0] == 'cmp' and a[1] in ('Eq', 'Le'):
+            x, y = a[2], a[3]
+            if a[1] == 'Eq' and ((x == '0' and y.startswith('len(%s(' % what)) or (y == '0' and x.startswith('len(%s(' % what))):
+                return True
+            if a[1] == 'Le' and y == '0' and x.startswith('len(%s(' % what):
+                return True
+        return a[0] == 'fail' and a[1].startswith('each(%s(' % what)
+    rm = find(lambda a: _empty_test(a, 'remainder'))
     if not lo:
         # .. or the number of whole elements left for the L/R pairs is required to be even: `chunks.len() % 2 == 0`
         import re as _re
